@@ -1508,6 +1508,9 @@ class FullEngine(Engine):
                 full[prm.name] = self.default_value(prm)
             else:
                 raise Unsupported(f"call to {qualname}: missing argument {prm.name}")
+        for prm in c.params:
+            if prm.ty.startswith("iter") and isinstance(full.get(prm.name), VIter) and full[prm.name] is args.get(prm.name):
+                self.consume(p, full[prm.name])          # an iterable handed on to a callee is consumed there
         spec = self.build_spec(c, p.st.copy(), full, p, site="call")
         for g_ in spec.gdefs:
             p.assume(g_)
